@@ -59,13 +59,15 @@ def main():
         dk = 0
         for lmtp in (False, True):
             for pipe in (False, True):
-                for stage in ('mail', 'rcpt', 'data', 'eod'):
+                for stage in ('mail', 'rcpt', 'data', 'eod', 'rcptmix'):
                     for code in (450, 550):
                         for nr in (1, 2):
                             dk += 1
                             if not quick and dk % nshards != shard:
                                 continue
                             script = {stage: {0: code}}
+                            if stage == 'rcptmix':          # every recipient refused, not all alike, and then DATA refused as well
+                                script = {'rcpt': [{0: code}, {0: 1000 - code}], 'data': {0: 554}}
                             r = rdrv.RelayRun(lmtp, pipe, [script], pool_size=1, idle_timeout=5)
                             for req in (1, 2, 3):
                                 r.attempt(req, nr if req != 2 else 3 - nr)
